@@ -149,3 +149,33 @@ def alloc(m, meta):
     del live
     gc.collect()
     return {"reproduced": bool(problems), "input": "600 random creations / deletions of image widgets", "observed": problems[:1]}
+
+
+def widget_z_index(m, meta):
+    """real UrwidImage widgets over KittyImage with and without a z-index in the format specifier: the z-index the widget renders with
+    is the one it was allocated (and is later deleted by), live widgets never share one"""
+    import tests  # noqa: F401
+    from PIL import Image
+    from term_image.image import KittyImage, BlockImage
+    from term_image.widget import UrwidImage
+    KittyImage._supported = True
+    problems = []
+    img = Image.new("RGB", (4, 4))
+    live = []
+    for spec in ("", "+z5", "+z5", "+z-7", "+L", "+Wz1"):
+        w = UrwidImage(KittyImage(img), spec)
+        used = w._ti_style_args.get("z_index")
+        if used != w._ti_z_index:
+            problems.append(f"UrwidImage(KittyImage, {spec!r}) renders with z-index {used} but is cleared by z-index {w._ti_z_index}")
+        canv = w.render((4, 2))
+        text = b"".join(seg[2] for row in canv.content() for seg in row).decode()
+        if f",z={w._ti_z_index}" not in text:
+            problems.append(f"UrwidImage(KittyImage, {spec!r}): render output does not carry z={w._ti_z_index}")
+        live.append(w)
+    zs = [w._ti_style_args["z_index"] for w in live]
+    if len(set(zs)) != len(zs):
+        problems.append(f"live widgets render with shared z-indexes: {zs}")
+    tw = UrwidImage(BlockImage(img), "")
+    if "z_index" in tw._ti_style_args or hasattr(tw, "_ti_z_index"):
+        problems.append("a text image widget took a z-index")
+    return {"reproduced": bool(problems), "input": "kitty image widgets with format specifiers '', '+z5' (twice), '+z-7', '+L', '+Wz1'", "observed": problems[:4]}
